@@ -107,6 +107,8 @@ where
                         }
                     }
                 };
+                #[cfg(feature = "verif-hooks")]
+                crate::verif_hooks::fq_note_popped(event.priority);
                 match inner.streams.remove(&event.key) {
                     Some(stream) => (event, stream),
                     None => continue,
@@ -139,6 +141,11 @@ where
                 Poll::Pending => {
                     let mut inner = fair_queue.inner.lock();
                     inner.streams.insert(event.key, io_stream);
+                    #[cfg(feature = "verif-hooks")]
+                    {
+                        drop(inner);
+                        crate::verif_hooks::fq_point();
+                    }
                     continue;
                 }
             }
@@ -161,6 +168,26 @@ impl<S, K: Clone> FairQueue<S, K> {
 
     pub(crate) fn inner(&self) -> Arc<Mutex<QueueInner<S, K>>> {
         self.inner.clone()
+    }
+}
+
+#[cfg(feature = "verif-hooks")]
+impl<S, K: Clone + Ord> QueueInner<S, K> {
+    pub(crate) fn verif_snapshot(&self) -> crate::verif_hooks::FairQueueSnapshot<K> {
+        let mut heap: Vec<(usize, K)> = self
+            .ready_queue
+            .iter()
+            .map(|e| (e.priority, e.key.clone()))
+            .collect();
+        heap.sort();
+        let mut streams: Vec<K> = self.streams.keys().cloned().collect();
+        streams.sort();
+        crate::verif_hooks::FairQueueSnapshot {
+            counter: self.counter.load(atomic::Ordering::Relaxed),
+            heap,
+            streams,
+            waker: self.waker.is_some(),
+        }
     }
 }
 
